@@ -62,7 +62,7 @@ func init() {
 	})
 	registerCheck(&checkSpec{
 		id:    "C06",
-		dirs:  []string{"socket", "proto/jsonproto"},
+		dirs:  []string{"socket", "proto/jsonproto", "proto/httproto"},
 		level: "other",
 		jobs: func(tier string) []job {
 			var js []job
@@ -81,11 +81,15 @@ func init() {
 			for _, n := range jn {
 				js = append(js, J("proto/jsonproto", "VX_C06_JSONUnpackBytes", n, 16))
 			}
+			js = append(js, J("proto/httproto", "VX_C06_HTTPContentLength", 7, 65536), J("proto/httproto", "VX_C06_HTTPBytes", 0, 4), J("proto/httproto", "VX_C06_HTTPBytes", 1, 4))
+			if tier == "thorough" {
+				js = append(js, J("proto/httproto", "VX_C06_HTTPContentLength", 8, 1024), J("proto/httproto", "VX_C06_HTTPBytes", 0, 6), J("proto/httproto", "VX_C06_HTTPBytes", 1, 5))
+			}
 			return js
 		},
 		assumptions: stdAssumptions,
 		explanation: "the real raw-protocol Unpack is executed on a fully symbolic byte stream (every byte a solver variable) of each listed length followed by EOF; the engine checks every make([]byte,n) reached against the configured limit (n is a solver term), termination (instruction budget = unwinding assertion), and that a well-formed frame still decodes afterwards",
-		bounds:      "raw protocol parser; stream length <= 8 (quick) / 12 (thorough) bytes; limit 24; other protocols' parsers and the session read loop not yet covered",
+		bounds:      "raw protocol parser on streams <= 8 (quick) / 12 (thorough) bytes, limit 24; json protocol parser on <= 6/8 bytes; http protocol: response with symbolic 7-8 digit Content-Length and <= 4-6 arbitrary bytes after the method prefix; thrift/pb parsers not covered",
 	})
 	registerCheck(&checkSpec{
 		id:    "C12",
